@@ -27,6 +27,7 @@ const (
 	avNil /* B: is nil */
 	avStr /* S: class; "" is the empty string */
 	avInt
+	avLen /* S: class of the string whose length this is */
 )
 
 // AV is an abstract value.
@@ -66,6 +67,8 @@ func (a AV) String() string {
 		return "str:" + a.S
 	case avInt:
 		return fmt.Sprintf("%d", a.N)
+	case avLen:
+		return "len(" + a.S + ")"
 	}
 	return "?"
 }
@@ -90,6 +93,13 @@ func avEq(a, b AV) (eq, ok bool) {
 		return a.S == b.S, true
 	case avInt:
 		return a.N == b.N, true
+	case avLen:
+		/* Equal strings have equal lengths; different strings may or may
+		not. */
+		if a.S == b.S {
+			return true, true
+		}
+		return false, false
 	}
 	return false, false
 }
@@ -263,12 +273,10 @@ func (r *Run) step(i ssa.Instruction, prev *ssa.BasicBlock) {
 				set(avU)
 			}
 		case token.MUL:
-			if nil != r.M.LocOf {
-				if l := r.M.LocOf(x.X); "" != l {
-					if a, ok := r.Mem[l]; ok {
-						set(a)
-						return
-					}
+			if l := r.locOf(x.X); "" != l {
+				if a, ok := r.Mem[l]; ok {
+					set(a)
+					return
 				}
 			}
 			set(avU)
@@ -287,18 +295,48 @@ func (r *Run) step(i ssa.Instruction, prev *ssa.BasicBlock) {
 				eq = !eq
 			}
 			set(avBoolOf(eq))
-		case token.LAND, token.LOR:
-			set(avU)
+		case token.ADD, token.SUB, token.LSS, token.LEQ, token.GTR, token.GEQ:
+			a, b := r.Eval(x.X), r.Eval(x.Y)
+			if avInt != a.K || avInt != b.K {
+				set(avU)
+				return
+			}
+			switch x.Op {
+			case token.ADD:
+				set(avIntOf(a.N + b.N))
+			case token.SUB:
+				set(avIntOf(a.N - b.N))
+			case token.LSS:
+				set(avBoolOf(a.N < b.N))
+			case token.LEQ:
+				set(avBoolOf(a.N <= b.N))
+			case token.GTR:
+				set(avBoolOf(a.N > b.N))
+			case token.GEQ:
+				set(avBoolOf(a.N >= b.N))
+			}
 		default:
 			set(avU)
 		}
 	case *ssa.Store:
-		if nil != r.M.LocOf {
-			if l := r.M.LocOf(x.Addr); "" != l {
-				r.Mem[l] = r.Eval(x.Val)
-			}
+		if l := r.locOf(x.Addr); "" != l {
+			r.Mem[l] = r.Eval(x.Val)
 		}
 	case *ssa.Call:
+		if bi, ok := x.Common().Value.(*ssa.Builtin); ok && "len" == bi.Name() && 1 == len(x.Common().Args) {
+			if n, ok := literalLen(x.Common().Args[0]); ok {
+				set(avIntOf(n))
+				return
+			}
+			if a := r.Eval(x.Common().Args[0]); avStr == a.K {
+				if "" == a.S {
+					set(avIntOf(0))
+				} else {
+					set(AV{K: avLen, S: a.S})
+				}
+				return
+			}
+		}
 		if nil != r.M.Call {
 			set(r.M.Call(r, x.Common(), -1))
 		} else {
@@ -342,7 +380,7 @@ func (r *Run) step(i ssa.Instruction, prev *ssa.BasicBlock) {
 // memory and returns every completed path.
 func (m *Machine) Explore(mem map[string]AV) (paths []*Run, truncated bool) {
 	if 0 == m.MaxVisits {
-		m.MaxVisits = 2
+		m.MaxVisits = 4
 	}
 	if 0 == m.MaxPaths {
 		m.MaxPaths = 4096
@@ -465,4 +503,48 @@ func (m *Machine) Explore(mem map[string]AV) (paths []*Run, truncated bool) {
 func condName(fn *ssa.Function, i *ssa.If) string {
 	p := fn.Prog.Fset.Position(posOf(i))
 	return fmt.Sprintf("cond@%d", p.Line)
+}
+
+// literalLen: the length of a whole-array slice of a local array (a slice
+// literal), or of the array itself.
+func literalLen(v ssa.Value) (int64, bool) {
+	if sl, ok := v.(*ssa.Slice); ok && nil == sl.Low && nil == sl.High && nil == sl.Max {
+		v = sl.X
+	}
+	pt, ok := v.Type().Underlying().(*types.Pointer)
+	if !ok {
+		return 0, false
+	}
+	at, ok := pt.Elem().Underlying().(*types.Array)
+	if !ok {
+		return 0, false
+	}
+	return at.Len(), true
+}
+
+// locOf names the abstract location of an address: the machine's own naming
+// first, then elements of local arrays at a known index.
+func (r *Run) locOf(addr ssa.Value) string {
+	if nil != r.M.LocOf {
+		if l := r.M.LocOf(addr); "" != l {
+			return l
+		}
+	}
+	ia, ok := addr.(*ssa.IndexAddr)
+	if !ok {
+		return ""
+	}
+	base := ia.X
+	if sl, ok := base.(*ssa.Slice); ok && nil == sl.Low {
+		base = sl.X
+	}
+	al, ok := base.(*ssa.Alloc)
+	if !ok {
+		return ""
+	}
+	k := r.Eval(ia.Index)
+	if avInt != k.K {
+		return ""
+	}
+	return fmt.Sprintf("elem@%p[%d]", al, k.N)
 }
